@@ -31,6 +31,18 @@ fn main() {
         println!("wrote {k} corpus files to {}", dir.display());
         return;
     }
+    if args[1] == "names" {
+        // nvh names: show what the name generators produce (development aid)
+        println!("han fragment names: {:?}", nvh::gen::han_fragment_names());
+        use proptest::strategy::{Strategy, ValueTree};
+        let mut runner = proptest::test_runner::TestRunner::deterministic();
+        for fi in 0..3usize {
+            let st = nvh::gen::name(fi, nvh::gen::NameProfile::Main);
+            let v: Vec<String> = (0..60).map(|_| st.new_tree(&mut runner).unwrap().current()).collect();
+            println!("{}: {:?}", nvh::fmts::FMT_NAMES[fi], v);
+        }
+        return;
+    }
     if args[1] == "dict" {
         // nvh dict <file>: libFuzzer dictionary with every keyword of the three formats
         let mut lines: Vec<String> = vec![];
